@@ -320,6 +320,67 @@ impl Prop for C12 {
                 }
             }
             out.feat("short_lived_trees_sequence");
+            // the caller's globals vary between executions of the one loaded file (a defaulted
+            // global supplied / not supplied, a global dropped): every execution must equal an
+            // isolated run with the same globals
+            let defaulted: Vec<String> = regex::Regex::new(r#"(?m)^\s*global\s+([A-Za-z_][A-Za-z0-9_-]*)[?*+]?\s*=\s*""#).unwrap().captures_iter(&c.text).map(|m| m[1].to_string()).collect();
+            let mut variants: Vec<BTreeMap<String, MVal>> = Vec::new();
+            if let Some(d) = defaulted.iter().find(|d| c.globals.contains_key(*d)) {
+                let mut g = c.globals.clone();
+                g.remove(d);
+                variants.push(g);
+            }
+            if let Some(d) = defaulted.iter().find(|d| !c.globals.contains_key(*d)) {
+                let mut g = c.globals.clone();
+                g.insert(d.clone(), MVal::str("supplied instead of the default"));
+                variants.push(g);
+            }
+            if variants.is_empty() {
+                if let Some(k) = c.globals.keys().next().cloned() {
+                    let mut g = c.globals.clone();
+                    g.remove(&k);
+                    variants.push(g);
+                }
+            }
+            if !variants.is_empty() {
+                let mut order: Vec<&BTreeMap<String, MVal>> = Vec::new();
+                for v in &variants {
+                    order.push(v);
+                    order.push(&c.globals);
+                }
+                order.push(&variants[0]);
+                for (step, g) in order.iter().enumerate() {
+                    let expect = {
+                        let text = c.text.clone();
+                        let src2 = c.sources[0].clone();
+                        let globals = (*g).clone();
+                        std::thread::spawn(move || {
+                            let functions = stdlib();
+                            match load_transcript(&text) {
+                                Ok((f, _)) => {
+                                    let t = parse_python(&src2);
+                                    exec_transcript(&f, &t, &src2, &globals, &functions, lazy)
+                                }
+                                Err(e) => e,
+                            }
+                        })
+                        .join()
+                        .unwrap_or_else(|_| "THREAD-PANIC".into())
+                    };
+                    let got = exec_transcript(&file, &trees[0], &c.sources[0], g, &functions, lazy);
+                    out.evals(2);
+                    if got != expect {
+                        let mut cc = cj();
+                        cc["globals_of_this_execution"] = json!(g.iter().map(|(k, v)| (k.clone(), v.to_json())).collect::<serde_json::Map<_, _>>());
+                        out.violation(&format!("C12:varying-globals-differ:{}", mode), &format!("execution #{} of one loaded file with another set of globals differs from an isolated run with that set: {:?} vs {:?}", step + 1, crate::util::trunc(&got, 300), crate::util::trunc(&expect, 300)), cc);
+                        return;
+                    }
+                }
+                out.feat("varying_globals_sequence");
+                if !defaulted.is_empty() {
+                    out.feat("varying_globals_with_a_defaulted_global");
+                }
+            }
             if reference[0].starts_with("ERROR") {
                 out.feat(&format!("stable_error:{}", mode));
             } else if reference[0].starts_with("GRAPH") {
